@@ -11,6 +11,7 @@ permutation `list.sort` applies.
 -/
 import TraitsVerif.Lemmas.SeqRefine
 import TraitsVerif.Generated.Mutators
+import TraitsVerif.Lemmas.PyLList
 namespace TraitsVerif.Props.C05
 open TraitsVerif TraitsVerif.Py TraitsVerif.Model
 variable {α : Type}
@@ -144,6 +145,50 @@ theorem C05_model_covers_overrides :
   decide
 
 /-! ### Non-vacuity: concrete states meeting the hypotheses -/
+
+/-! ### The model is the source
+
+`Generated/ListProg.lean` is the *translation of the source text* of every
+`TraitList` mutator and of `_normalize_slice_or_index` / `_removed_items` into
+the deep-embedded Python subset of `Model/PyL.lean`, redone from /repo's
+working tree on every run (`harness/translate/pyl.py`).  The hand-written
+`TraitList.step`, about which every theorem above is stated, is exactly the
+interpretation of that translation. -/
+
+/-- **`TraitList.step` is what the source says**: for every validator, every
+list and every operation, running the translated method body gives the items,
+the returned value and the event list of `TraitList.step`; where the model
+raises, the interpreted source raises the same exception with the list as it
+was and no event fired. -/
+theorem C05_step_is_source (E : Env α) (l : List α) (op : Op α) :
+    PyL.runTraitListOp Generated.listHelpers Generated.traitListProg E l op
+      = PyL.summaryOfStep l (TraitList.step E l op) :=
+  Lemmas.PyL.tl_step_is_source E l op
+
+/-- Atomicity read off the source: whenever the interpreted source raises, the
+list is unchanged and nobody has been notified. -/
+theorem C05_source_atomic (E : Env α) (l : List α) (op : Op α) (e : Exc) (items : List α)
+    (evs : List (Event α))
+    (h : PyL.runTraitListOp Generated.listHelpers Generated.traitListProg E l op = .raised e items evs) :
+    items = l ∧ evs = [] := by
+  rw [C05_step_is_source] at h
+  cases hs : TraitList.step E l op with
+  | ok o => simp [PyL.summaryOfStep, hs] at h
+  | error e' =>
+    simp only [PyL.summaryOfStep, hs, PyL.Summary.raised.injEq] at h
+    exact ⟨h.2.1.symm, h.2.2.symm⟩
+
+/-- The source fires at most one event per call, and exactly the model's. -/
+theorem C05_source_events (E : Env α) (l : List α) (op : Op α) (items : List α) (r : Option α)
+    (evs : List (Event α))
+    (h : PyL.runTraitListOp Generated.listHelpers Generated.traitListProg E l op = .done items r evs) :
+    ∃ o, TraitList.step E l op = .ok o ∧ items = o.items ∧ r = o.ret ∧ evs = o.event.toList := by
+  rw [C05_step_is_source] at h
+  cases hs : TraitList.step E l op with
+  | error e' => simp [PyL.summaryOfStep, hs] at h
+  | ok o =>
+    simp only [PyL.summaryOfStep, hs, PyL.Summary.done.injEq] at h
+    exact ⟨o, rfl, h.1.symm, h.2.1.symm, h.2.2.symm⟩
 
 def idEnv : Env Int := { v := fun _ x => .ok x, eq := (· == ·), sort := fun _ l => l.mergeSort (· ≤ ·) }
 
